@@ -1364,3 +1364,9 @@ impl<T> From<Error> for RecvHeaderBlockError<T> {
         RecvHeaderBlockError::State(err)
     }
 }
+
+#[cfg(feature = "verif")]
+#[allow(missing_docs, dead_code, unused_imports)]
+pub(crate) mod verif_h {
+    include!(concat!(env!("H2_VERIF_DIR"), "/harness/proto/streams/recv.rs"));
+}
